@@ -69,10 +69,10 @@ def _lens(tc, tier, rnd, nsteps, key):
     if tier == "quick":
         base = [2, 3, 16, 17, 300]
         return sorted(set(base + rnd.sample(range(4, 300), 3)))
-    # thorough: every length 2..300 is used by two of the four text classes
+    # thorough: every length 2..300 is used by one of the four text classes
+    # (which one rotates with the seed), the boundary lengths by all
     idx = ["ascii", "multibyte", "ctl", "mixed"].index(tc)
-    off = common.seed() % 4
-    lens = [n for n in range(2, 301) if (n + off) % 4 in (idx, (idx + 1) % 4)]
+    lens = [n for n in range(2, 301) if (n + common.seed()) % 4 == idx]
     return sorted(set(lens + BOUNDARY_LENS))
 
 
@@ -93,7 +93,7 @@ def _seal_cases(chk, behaviours, keys):
         wrong = others[:3] + malformed + [kp["pub"]]
         lens = _lens(b["tc"], tier, rnd, n, b["key"])
         parts = dict(PARTS, ct=CT_CELLS.get(b["tc"], 2))
-        cap1 = 0 if (n <= 1 and b["key"] == "right") else (48 if b["key"] == "right" else 12)
+        cap1 = 0 if (n <= 1 and b["key"] == "right") else (32 if b["key"] == "right" else 10)
         if b["key"] == "wrong" and n <= 1:
             cap1 = 24
         chunk = 4 if tier == "quick" else 12
@@ -236,7 +236,7 @@ def run(chk):
         "an adversary who makes a NEW sealed value with the public key is outside the property (corruptions of a sealed value)",
         "the outcome class predicted by the model (original / reject) is compared with the code for information only "
         "(model_vs_code_outcome): the property allows either for an altered value",
-        "two-step schedules, wrong-key schedules: first step sampled (48 / 12..24 variants), later steps 3 / 2 variants",
+        "two-step schedules, wrong-key schedules: first step sampled (32 / 10..24 variants), later steps 3 / 2 variants",
         "Verify: outputs are three clearly different values; questions are built valid, an error other than ErrWrongAnswer is a "
         "harness error; empty answers and single-choice answers with several letters are refused before verification and "
         "are not cells",
